@@ -26,7 +26,7 @@ ASSUMPTIONS = ["in-memory kernel fidelity (EOF/reset/EPIPE semantics)", "a reque
                "connection closed (the statement promises that only for sides that close, are told to close, or fail while serving); the "
                "stream must be closed and a later close() must run the hook once"]
 PROBES = ["c11:local-close-while-blocked", "c11:pipe-peer-vanished", "fault:recv-eof", "fault:recv-rst", "fault:send-epipe", "fault:send-rst", "fault:poll-eof", "c11:close-in-handler",
-          "c11:both-close"]
+          "c11:both-close", "c11:hook-waits-for-requester"]
 
 WORKLOADS = ("sync", "async", "nested", "refs", "big", "twothreads", "pipes")
 _CASES = None
@@ -395,6 +395,7 @@ def run_one(choices, params):
                     # "called when the connection had already terminated": an application may wait here for its own threads
                     # that were using the connection - they have been released by the time the hook runs
                     t0 = sim.now
+                    sim.count("c11:hook-waits-for-requester")
                     sim.block(lambda: "out" in res, 20, "hook-waits-for-requester")
                     hookwait["waited"] = sim.now - t0
 
